@@ -44,7 +44,7 @@ CHECKS = {
             {"pkg": "Havoc/pkg/logr", "entries": ["H_c07_service_file", "H_c07_console_log", "H_c07_screenshot"], "split": True},
             {"pkg": "Havoc/pkg/agent", "with": AGENT_WITH, "entries": ["H_c07_download_path", "H_c07_chunks"], "split": True},
         ],
-        "bounds": "file names of 1..3 components joined by / or \\ (per joint), each component one of '..', '.', '', 1..2 arbitrary non-separator bytes, or (once) 9 arbitrary non-separator bytes; crafted agent ids of 1..2 such components; chunk histories of 1..4 open/write/close steps over two file ids and one unknown id, chunks of 1..2 arbitrary bytes.",
+        "bounds": "file names of 1..3 components joined by / or \\ (per joint), each component one of '..', '.', '', 1..2 arbitrary non-separator bytes, or (once) 9 arbitrary non-separator bytes; crafted agent ids of 1..2 such components; chunk histories of 1..4 open/write/close steps over two file ids and one unknown id, chunks of 1..2 arbitrary bytes.; a second transfer of the same remote file (re-open after close) starts the loot file afresh (file content modelled with POSIX create/truncate/append semantics)",
         "outside": "symlinks and OS path semantics (os.* are effect recorders inside gosx, real files in the replay); names longer than the bound",
         "min_completed": 3,
     },
